@@ -74,6 +74,7 @@ package auparse
 //@ ensures[C12] len(s) % 2 == 0 && (forall j int :: 0 <= j && j < len(s) ==> isHexUp(s[j])) ==> isNil(result1)
 //@ func auparse.hexToString
 //@ modifies alloc
+//@ ensures[C12] len(h) % 2 == 0 && (forall j int :: 0 <= j && j < len(h) ==> isHexUp(h[j])) ==> isNil(result1)
 //@ func auparse.hexToStrings
 //@ modifies alloc
 //@ ensures[C05] isNil(result1) ==> len(result0) >= 1
@@ -85,6 +86,13 @@ package auparse
 //@ ensures[C12] isNil(result1) && sockFamily(s) == 2 ==> len(s) >= 16 && result0["family"] == "ipv4" && result0["port"] == strDec(strIval(s[4:8], 16)) && "addr" in result0
 //@ ensures[C12] isNil(result1) && sockFamily(s) == 10 ==> len(s) >= 48 && result0["family"] == "ipv6" && result0["port"] == strDec(strIval(s[4:8], 16)) && "addr" in result0
 //@ ensures[C12] isNil(result1) && sockFamily(s) == 1 ==> result0["family"] == "unix" && "path" in result0
+// ... and a well-formed address is decoded, not refused (the lengths are the kernel's
+// minimum: 8 bytes of sockaddr_in up to the address, 24 bytes of sockaddr_in6 without scope id).
+//@ spec hex16(t string) bool := strIsNum(t, 16, true) && 0 <= strIval(t, 16) && strIval(t, 16) < 2147483648
+//@ ensures[C12] len(s) >= 16 && hex16(s[2:4] ++ s[0:2]) && sockFamily(s) == 2 && hex16(s[4:8]) ==> isNil(result1)
+//@ ensures[C12] len(s) >= 48 && hex16(s[2:4] ++ s[0:2]) && sockFamily(s) == 10 && hex16(s[4:8]) && hex16(s[8:16]) && hexOK(s[16:48]) ==> isNil(result1)
+//@ ensures[C12] len(s) >= 4 && len(s) % 2 == 0 && hex16(s[2:4] ++ s[0:2]) && sockFamily(s) == 1 && (forall j int :: 4 <= j && j < len(s) ==> isHexUp(s[j])) ==> isNil(result1)
+//@ ensures[C12] len(s) >= 4 && hex16(s[2:4] ++ s[0:2]) && sockFamily(s) != 1 && sockFamily(s) != 2 && sockFamily(s) != 10 ==> isNil(result1)
 //@ ensures[C12] isNil(result1) && sockFamily(s) == 16 ==> result0["family"] == "netlink" && result0["saddr"] == s
 //@ func auparse.normalizeAuditMessage
 //@ modifies alloc
